@@ -271,6 +271,7 @@ theorem loader_alloc_bounded (fix : Fix) (bs : Bytes) (now : Nat) :
     | unknownType t => exact decSnapshotT_allocs_le fix bs now a (by rw [h]; exact ha)
     | wrongType => exact decSnapshotT_allocs_le fix bs now a (by rw [h]; exact ha)
     | invalidDb => exact decSnapshotT_allocs_le fix bs now a (by rw [h]; exact ha)
+    | badExpire => exact decSnapshotT_allocs_le fix bs now a (by rw [h]; exact ha)
     | fuel => exact decSnapshotT_allocs_le fix bs now a (by rw [h]; exact ha)
 
 /-- For the loader as it is (`vec![0u8; len]`) every allocation that is followed by a successful read
@@ -295,6 +296,7 @@ theorem loader_alloc_bounded_partial (fix : Fix) (bs : Bytes) (now : Nat)
     | unknownType t => exact decSnapshotT_allocs_le fix bs now a (by rw [hd]; exact ha)
     | wrongType => exact decSnapshotT_allocs_le fix bs now a (by rw [hd]; exact ha)
     | invalidDb => exact decSnapshotT_allocs_le fix bs now a (by rw [hd]; exact ha)
+    | badExpire => exact decSnapshotT_allocs_le fix bs now a (by rw [hd]; exact ha)
     | fuel => exact decSnapshotT_allocs_le fix bs now a (by rw [hd]; exact ha)
 
 /-- witness: 15 bytes make the loader as it is allocate 4 294 967 295 bytes; with the bounded read
